@@ -70,6 +70,15 @@ ASSUMPTIONS = [
     "re-staging stream: the staleness of the state cache proper is C13's model; here writers re-stage files rewritten "
     "in place (same size, same inode) with the modification time set explicitly to another fraction of the same "
     "whole second - no wall-clock dependence; only the manifest oracle judges it",
+    "hardlink=True writers (with and without verify=True) are part of the scheduled stream; their traces contain "
+    "os.link = step VLink of the extended machine and are SIMULATED (vrun), like the verify traces.  A 'source "
+    "rewritten after staging' perturbation is applied only to ONE verify=True + hardlink=True writer that is "
+    "scheduled to run to completion on a local store before the others: it may be refused (the rewritten ids and "
+    "its directory object reported failed) and then promises nothing; the store must stay correctly named and "
+    "the others must fully succeed.  (Observation, counted not judged: as root another writer's reflink attempt "
+    "truncates the inode a hard-linked object shares with its SOURCE file in the workspace.)",
+    "translator unit dbadd (Gen/DbAdd.v, regenerated on every run) ties the add protocol of the model to "
+    "HashFileDB.add: Proofs/ConcurrentTie.v",
     "hashing INSIDE one writer (build's thread pool for large files, imap_unordered) is C03's model (HashSched); "
     "here it is only exercised, not modelled: a share of the scheduled and free-running runs lowers the large-file "
     "threshold to 0 (patched from the harness as c03.py does), uses checksum_jobs in {None,2,4} and delays the read "
@@ -1063,7 +1072,7 @@ def run(ctx):
     t_start = time.time()
     _STATS.clear()
     n_sched = ctx.n(210, 3000)
-    budget = 16 if ctx.tier == "quick" else 300
+    budget = 16 if ctx.tier == "quick" else 270
     cases = []
     seen_sched = set()
     unknown_total = []
